@@ -2395,6 +2395,20 @@ def check_cross(ctx, r, n):
         _geom_compare(ctx, geom_cases, geom_outs)
 
 
+def generate(ctx):
+    """translator tie: the closed-form pieces of Binary / Geometric / Exponential / PermuteAndFlip / ExponentialCategorical
+    are re-read from /repo's AST on every run, translated to Lean terms over ℝ and proved equal to the model's; the generated
+    file then proves that the model's samplers ARE the composition of the generated pieces
+    (harness/anchor_specs_c01.py, harness/anchors.py)"""
+    from .. import anchors, anchor_specs_c01 as S
+    from ..shim import REPO
+    r = anchors.build(REPO, "C01", ["DPL.Model.Discrete"], S.specs(), opens="DPL.Discrete", postlude=getattr(S, "POST", ""))
+    ctx.count("formula_anchors", r["obligations"])
+    if r["errors"]:
+        r["unavailable"] = r["errors"]      # anchors that could not be located / translated (not failed obligations)
+    return r
+
+
 def check(ctx):
     check_binary(ctx, ctx.fork("binary"), ctx.budget(60, 300))
     check_geometric(ctx, ctx.fork("geometric"), ctx.budget(95, 800))
